@@ -793,6 +793,49 @@ func checkC20(w *World, r *Report) {
 				"entries whose keys differ only in the stripped part overwrite each other here: of the environment variables describing one list only one survives, and which one depends on map iteration order")
 		})
 	}
+	// C20.8: a key-wise merge of two maps treats both operands alike: if the keys it iterates were
+	// normalised (maps.Unflatten of one operand), the map it looks them up in is normalised too
+	ri8 := r.Rule("C20.8", 1, "where the configuration parser merges two maps key by key, both operands are brought into the same (nested) form first; otherwise flat and nested keys for one property coexist and which value survives depends on the merge order")
+	n8 := 0
+	for _, fn := range w.Funcs {
+		if !strings.HasSuffix(fnPkgPath(fn), "/internal/config/parser") || w.isMockFn(fn) {
+			continue
+		}
+		isUnflatten := func(x ssa.Value) bool {
+			c, ok := x.(*ssa.Call)
+			return ok && strings.HasSuffix(callName(c.Common()), "koanf/maps.Unflatten")
+		}
+		eachInstr(fn, func(in ssa.Instruction) {
+			lk, ok := in.(*ssa.Lookup)
+			if !ok {
+				return
+			}
+			if _, isMap := lk.X.Type().Underlying().(*types.Map); !isMap {
+				return
+			}
+			// the key ranges over a normalised map
+			fromNormalised := false
+			for _, o := range w.Origins(lk.Index, nil) {
+				if ex, ok := o.(*ssa.Extract); ok {
+					if nx, ok := ex.Tuple.(*ssa.Next); ok {
+						if rg, ok := nx.Iter.(*ssa.Range); ok && dependsOn(w, rg.X, isUnflatten) {
+							fromNormalised = true
+						}
+					}
+				}
+			}
+			if !fromNormalised {
+				return
+			}
+			n8++
+			r.Analysed(w.FnName(fn))
+			r.Ob(ri8, fmt.Sprintf("%s|keywise-merge#%d", w.FnName(fn), n8), lk.Pos(), dependsOn(w, lk.X, isUnflatten),
+				"the keys of one operand are normalised (maps.Unflatten) but they are looked up in the other operand as it is: a list element that arrived with flat keys (config.subject.id) and one with nested keys do not meet, and properties of one element are dropped depending on the order of the environment variables")
+		})
+	}
+	if n8 == 0 {
+		r.Undecided(ri8, "no key-wise merge over a normalised map found in the configuration parser")
+	}
 	// cache back ends: cache.Register("<type>", factory) plus the built-in noop type
 	var cacheAlts []sdef
 	if cn, ok := props(s.root)["cache"].(map[string]any); ok {
